@@ -8,9 +8,10 @@ C18 — auto-populated request ids (AIP-4235).
   client_method` (sync client; the REST transport is reached through the sync client) and by
   `async_client.py.j2`.
 
-The model follows the code, not the AIP (e.g. the type test looks at `field.type` only, so a
-`repeated string` passes it; the macro assigns to the object it was given, so a request *instance*
-supplied by the caller is modified in place).
+The model follows the code, not the AIP (e.g. the macro assigns to the object it was given, so a
+request *instance* supplied by the caller is modified in place).  Since the `fix:` commit 239cd3d the
+type test reads `field.repeated or field.type != str`, so a `repeated string` is reported as
+"not of type string".
 -/
 namespace GapicModel.Model.AutoPop
 
@@ -19,11 +20,11 @@ namespace GapicModel.Model.AutoPop
 /-- a field of the top-level request message, as far as the validation and the macro look at it -/
 structure Field where
   name : String
-  isStr : Bool        -- `field.type == PrimitiveType.build(str)` (label NOT consulted)
+  isStr : Bool        -- `field.type == PrimitiveType.build(str)` (the scalar type alone)
   required : Bool     -- `field.required`: REQUIRED among google.api.field_behavior
   uuid4 : Bool        -- `field.uuid4`: google.api.field_info.format == UUID4
   optional : Bool     -- `field.proto3_optional`
-  repeated : Bool     -- label; consulted by nothing in the validation
+  repeated : Bool     -- `field.repeated`; a repeated field fails the type test (fix 239cd3d)
 deriving Repr, DecidableEq
 
 /-- an entry of `API.all_methods` (key `"<service full name>.<method name>"`) -/
@@ -65,7 +66,7 @@ def fieldErrs (inp : List Field) (s : String) : List FieldErr :=
   match getField inp s with
   | none => [.notFound s]
   | some f =>
-    (if f.isStr then [] else [.notString s]) ++
+    (if f.repeated || !f.isStr then [.notString s] else []) ++
     (if f.required then [.isRequired s] else []) ++
     (if f.uuid4 then [] else [.notUuid4 s])
 
